@@ -65,6 +65,10 @@ def gen_cases(rng, tier, rnd):
             a = gentm.abstract_tm(rng)
             c['spec'], c['rank'] = gentm.rename(a, rng)
             c['steps'] = [{'n': rng.choice([0, 0, 1, 1, 2, 3, 4]), 'max_steps': rng.choice([0, 1, 2, 5, 20, 1000])} for _ in range(3)]
+        elif kind == 'cfg' and rng.random() < 0.08:
+            a = gencfg.wide_cfg(rng)           # the Chomsky normal form needs more than 26 variables
+            c['spec'], c['rank'] = gencfg.rename(a, rng)
+            c['steps'] = [{'n': rng.choice([0, 1, 2, 3])} for _ in range(2)]
         elif kind == 'cfg':
             a = gencfg.abstract_cfg(rng, 1, 4, 2, feats={'maxlen': rng.choice([2, 3])})
             c['spec'], c['rank'] = gencfg.rename(a, rng)
